@@ -630,13 +630,16 @@ def run_check(prop, tier, only=None, jobs=None, seed=0):
         "coverage": {
             "evaluations": evaluations,
             "distinct_nontrivial": distinct,
-            "rule": "evaluations = CBMC properties (assertions, overflow/bounds/pointer checks, covers) decided by the SAT solver in this run, "
-                    "each over ALL values of the harness's symbolic inputs within the stated bounds; distinct_nontrivial = number of distinct "
-                    "kani::cover! scenarios the solver proved reachable in verified harnesses + number of verified harnesses whose deliberately "
-                    "wrong canary twin was refuted (measured from the Kani output of this run).",
+"rule": ("evaluations = CBMC properties (assertions, overflow/bounds/pointer checks, covers) decided by the SAT solver in this run, "
+                     "each over ALL values of the harness's symbolic inputs within the stated bounds; distinct_nontrivial = number of distinct "
+                     "kani::cover! scenarios the solver proved reachable in verified harnesses + number of verified harnesses whose deliberately "
+                     "wrong canary twin was refuted (measured from the Kani output of this run)." if sel else "") +
+                    (" mirsym: evaluations += obligations discharged by z3 under a path condition plus inputs of a path compared with the reference "
+                     "(every completion of the variables the path left free); distinct_nontrivial += feasible paths explored to the end." if mirsym else ""),
             "samples": samples[:40] or [{"note": "no verified harness in this run"}],
             "exhaustive": False,
-            "engine": "Kani 0.68.0 / CBMC 6.11.0 / CaDiCaL; goto-program rebuilt from %s working tree in this run" % REPO,
+            "engine": " + ".join(([("Kani 0.68.0 / CBMC 6.11.0 / CaDiCaL; goto-program rebuilt from %s working tree in this run" % REPO)] if sel else []) +
+                                 ([mirsym["engine"] + "; MIR dumped from %s working tree in this run" % REPO] if mirsym and not mirsym.get("error") else [])),
             "functions_encoded": sorted(fn_all),
             "queries": queries,
             "stubs": sorted(stubs_all),
@@ -647,11 +650,13 @@ def run_check(prop, tier, only=None, jobs=None, seed=0):
             "known_findings": [k["id"] for k in known],
             "inconclusive": [{"harness": h["full"], "why": why} for h, why in inconclusive],
         },
-        "assumptions": sorted(assumptions) + [
+        "assumptions": sorted(assumptions) + ([
             "Kani/CBMC model of rustc MIR (Kani's pinned nightly) stands in for the release toolchain",
             "every #[kani::stub] listed under coverage.stubs replaces the named function by the harness model",
             "results hold within the unwind bound and value ranges listed per query; unwinding assertions are on",
-        ],
+        ] if sel else []) + ([
+            "mirsym: the nightly toolchain's MIR (debug assertions off, overflow checks on) stands in for the release build; results hold within the bounds listed per query",
+        ] if mirsym else []),
         "wall_s": round(wall, 2),
         "violations": len(vio_out),
     }
